@@ -8,13 +8,13 @@ import XfabVerif.Model.Params
       reset [n v]...                      new object `parameters(**kwds)`                     -> ok
       addpar n v vary canvary stepsize                                                         -> ok
       set n v                                                                                  -> ok
-      setpars [n v]...        set_parameters                                                   -> ok | raise:OverflowError
+      setpars [n v]...        set_parameters                                                   -> ok
       setvary [n]...          set_varylist                                                     -> ok | raise:AssertionError
       setvals [v]...          set_variable_values                                              -> ok | raise:AssertionError
       upself [n v]...         update_yourself(obj with these attributes)                       -> ok
       upother [n v]...        update_other(obj)       -> obj [n v]...   (attributes afterwards, given order)
-      load x:<hex text>       loadparameters(file with this content)                           -> ok | raise:OverflowError
-      reload / reloadnew      load (saveText st) into the same / a fresh object                -> ok | raise:OverflowError
+      load x:<hex text>       loadparameters(file with this content)                           -> ok
+      reload / reloadnew      load (saveText st) into the same / a fresh object                -> ok
                               (float tokens verbatim: the real file only if every float token is a repr; the harness
                                sends `save` + `load <real file>` instead)
       get n                                             -> val v | raise:KeyError
@@ -22,7 +22,7 @@ import XfabVerif.Model.Params
       varied                  get_variable_values       -> vals [v]... | raise:KeyError
       stepsizes               get_variable_stepsizes    -> steps [s]... | raise:KeyError
       save                    saveparameters            -> text x:<hex of file, float tokens verbatim> | [n v]... (sorted lines)
-      classify s:<hex>        dumbtypecheck of one string -> int <n> | flt <hex> | text <hex> | overflow
+      classify s:<hex>        dumbtypecheck of one string -> int <n> | flt x:<hex> | text x:<hex>
     Anything else, any string longer than 4000 characters, any non-ASCII code point -> `bad` (state unchanged). -/
 
 open Params
@@ -113,7 +113,6 @@ def encPairs (l : List (Str × Val)) : String :=
 def encErr : Err → String
   | .assertion => "raise:AssertionError"
   | .key => "raise:KeyError"
-  | .overflow => "raise:OverflowError"
 
 def answer (r : State × Option Err) : State × String :=
   (r.1, match r.2 with | none => "ok" | some e => encErr e)
@@ -200,8 +199,7 @@ def handle (st : State) (line : String) : State × String :=
         | some s => (st, match classify s with
             | .int n => "int " ++ String.ofList (showInt n)
             | .flt t => "flt x:" ++ hexOf t
-            | .text t => "text x:" ++ hexOf t
-            | .overflow => "overflow")
+            | .text t => "text x:" ++ hexOf t)
         | none => bad
       | _ => bad
     else bad
